@@ -16,7 +16,9 @@ pub fn rtoks_real(sm: &SourceMap) -> Vec<RTok> {
             RTok {
                 gl: r.dst_line,
                 gc: r.dst_col,
-                src: if r.src_id != !0 { Some((r.src_id, r.src_line, r.src_col, if r.name_id != !0 { Some(r.name_id) } else { None })) } else { None },
+                // a name index only counts while the map has such a name (remove_names leaves the raw
+                // index behind; the token then has no name)
+                src: if r.src_id != !0 { Some((r.src_id, r.src_line, r.src_col, if r.name_id != !0 && sm.get_name(r.name_id).is_some() { Some(r.name_id) } else { None })) } else { None },
                 range: r.is_range,
             }
         })
@@ -198,6 +200,10 @@ fn derived(sm: &SourceMap) -> Vec<(&'static str, SourceMap)> {
             SourceMapSection::new((9, 0), None, Some(DecodedMap::Regular(sm.clone()))),
         ],
     );
+    // the in-place editing calls that change what has to be written
+    let mut nn = sm.clone();
+    nn.remove_names();
+    out.push(("remove_names", nn));
     if let Ok(f) = idx.flatten() {
         out.push(("flatten", f));
     }
@@ -362,7 +368,7 @@ pub fn run(run: &mut Run) -> Finish {
     });
     Finish {
         level: "exploration",
-        rule: "E1: every map of slices T/S1/S2/M/I+H (as C01), built three ways, plus the maps produced from them by rewrite (2 option sets), adjust_mappings and flatten; each serialised by the real encoder and read back by the independent RV3 reader working on serde_json::Value (the crate's decoder is not involved). Compared: version, tokens in raw-index form (up to exact consecutive duplicates), join(sourceRoot, sources[i]) = get_source(i), names, sourcesContent, file, ignoreList, debug_id, absence of the five optional keys when the map has no value, sections/offset/url/map recursively. Distinct by construction; non-trivial = at least one token/source/name; outcome class = structural shape.".into(),
+        rule: "E1: every map of slices T/S1/S2/M/I+H (as C01), built three ways, plus the maps produced from them by rewrite (2 option sets), adjust_mappings, flatten and remove_names; each serialised by the real encoder and read back by the independent RV3 reader working on serde_json::Value (the crate's decoder is not involved). Compared: version, tokens in raw-index form (up to exact consecutive duplicates), join(sourceRoot, sources[i]) = get_source(i), names, sourcesContent, file, ignoreList, debug_id, absence of the five optional keys when the map has no value, sections/offset/url/map recursively. Distinct by construction; non-trivial = at least one token/source/name; outcome class = structural shape.".into(),
         assumptions: vec!["well-formed maps as in C01; range tokens are C07's".into(), "independent reader rv3_read_regular (self-tested against the independent writer and the repository fixtures)".into()],
         coverage_extra: json!({"max_tokens_T": kmax}),
     }
